@@ -13,16 +13,22 @@ from .c20 import rec_hook, recs
 
 LEVEL = "other"
 EXPLANATION = (
-    "Decided clauses only (necessary conditions). R1 constants: NAIF_K/EB/M0/M1 and the 32.184 s offset equal the "
-    "values parsed from naif0012.txt; the TDB constants and the J2000 offset equal the statement's. R2 formula "
-    "shape: delta_et_tai and inner_g are evaluated to real-valued expression DAGs (floats folded with IEEE doubles, "
-    "sin uninterpreted) and compared, modulo commutativity, with 32.184 + K sin(M + EB sin M), M = M0 + M1 t and "
-    "0.001658 sin(g + 0.0167 sin g), g = 357.528 deg + 1.990910018065731e-7 t; in to_time_scale both directions of "
-    "each scale apply the same correction function with opposite signs, the J2000 offset with opposite signs and the "
-    "32.184 s shift of the argument mirrored. NOT decided (accumulated floating-point error of the five-round "
-    "iteration over +/-10 000 years): the 30 ns agreement, the 20 ns round trip and order preservation beyond 100 ns.")
+    "R1 constants: NAIF_K/EB/M0/M1 and the 32.184 s offset equal the values parsed from naif0012.txt; the TDB constants and "
+    "the J2000 offset equal the statement's. R2 formula shape: delta_et_tai and inner_g are evaluated to real-valued "
+    "expression DAGs (floats folded with IEEE doubles, sin uninterpreted) and compared, modulo commutativity, with 32.184 + "
+    "K sin(M + EB sin M), M = M0 + M1 t and 0.001658 sin(g + 0.0167 sin g), g = 357.528 deg + 1.990910018065731e-7 t; in "
+    "to_time_scale both directions of each scale apply the same correction function with opposite signs, the J2000 offset "
+    "with opposite signs and the 32.184 s shift of the argument mirrored, and the correction is evaluated at the epoch's own "
+    "seconds plus a bounded offset (interval evaluation of the refinement loop, |sin| <= 1). R3 numeric clauses as a static "
+    "error budget: from the closed-form trees an interval / rounding-error / derivative analysis (hv/fperr.py) gives the "
+    "Lipschitz constant L = 3.35e-10 s/s, the float evaluation error eps = 4e-14 s and the amplitude; with the offsets of R2, "
+    "the rounding of to_seconds (C18.R6) and the truncation to whole nanoseconds (C18.R2) the budget proves |applied "
+    "correction - closed form(t)| <= 30 ns (bound derived: 11.8 ns, t read as the seconds of either scale), TAI -> ET/TDB -> "
+    "TAI within 20 ns (11.8 / 1.0 ns) and order preserved beyond 100 ns (margin 99 ns), for |t| <= 10 000 years. Assumed: "
+    "IEEE-754 binary64 arithmetic and a platform sin() accurate to 2^-50 absolutely.")
 
 COMM = ("Add", "Mul")
+X_MAX = 10_000 * 36525 * 864 + 10 ** 6  # the statement's span: +/-10 000 years of J2000 in seconds, plus slack for shifts
 
 
 def norm(t):
@@ -64,8 +70,12 @@ def r1_constants(chk, F):
     chk.ob(rule, "ET_EPOCH_S", "==3155716800 s", et == oracle.J2000_S_AFTER_1900, "decoded constant vs statement", detail=et)
 
 
+SHAPES = {}
+
+
 def r2_shapes(chk, F):
     rule = "C07.R2"
+    SHAPES.clear()
     eng, D = ctx(F)
     k = oracle.naif_kernel(REPO)
     K, EB, M0, M1 = k["K"], k["EB"], k["M"][0], k["M"][1]
@@ -79,6 +89,8 @@ def r2_shapes(chk, F):
     for st in finals:
         r = st.ret
         ok = st.end == "return" and isinstance(r, Flt) and _match(norm(r.t), norm(want))
+        if ok:
+            SHAPES["delta_et_tai"] = (r.t, t[1])
         chk.ob(rule, "Epoch::delta_et_tai", "32.184+K*sin(M+EB*sin(M)),M=M0+M1*t", ok, "expression DAG modulo commutativity",
                detail=None if ok else {"got": repr(norm(r.t) if isinstance(r, Flt) else r)[:600], "want": repr(norm(want))[:600]}, sample=True)
     no_bad_events(chk, rule, "Epoch::delta_et_tai", finals, eng)
@@ -91,6 +103,8 @@ def r2_shapes(chk, F):
     for st in finals:
         r = st.ret
         ok = st.end == "return" and isinstance(r, Flt) and _match(norm(r.t), norm(want))
+        if ok:
+            SHAPES["inner_g"] = (r.t, t[1])
         chk.ob(rule, "Epoch::inner_g", "0.001658*sin(g+0.0167*sin(g)),g=357.528deg+1.990910018065731e-7*t", ok,
                "expression DAG modulo commutativity", detail=None if ok else {"got": repr(norm(r.t) if isinstance(r, Flt) else r)[:600], "want": repr(norm(want))[:600]})
     no_bad_events(chk, rule, "Epoch::inner_g", finals, eng)
@@ -108,7 +122,7 @@ def _match(a, b):
     return a == b
 
 
-def affine_interval(t, memo=None):
+def affine_interval(t, memo=None, known=None):
     """Float term -> (base symbol or None, coefficient of it, lo, hi): the term as coef*base + [lo, hi] by interval evaluation
     (|sin| <= 1); None when the term leaves that shape (two different symbols, a symbol multiplied by a non-constant, ...)."""
     if memo is None:
@@ -124,19 +138,21 @@ def affine_interval(t, memo=None):
     if isinstance(t, tuple) and t:
         if t[0] == "c" and isinstance(t[1], float):
             r = (None, 0.0, t[1], t[1])
+        elif t[0] == "sym" and known and t[1] in known:
+            r = (None, 0.0, known[t[1]][0], known[t[1]][1])
         elif t[0] == "sym":
             r = (t[1], 1.0, 0.0, 0.0)
         elif t[0] == "op1" and t[1] in ("sin", "cos"):
             r = (None, 0.0, -1.0, 1.0)
         elif t[0] == "op" and t[1] in ("Add", "Sub") and len(t) == 4:
-            x, y = affine_interval(t[2], memo), affine_interval(t[3], memo)
+            x, y = affine_interval(t[2], memo, known), affine_interval(t[3], memo, known)
             if x is not None and y is not None and (x[0] is None or y[0] is None or x[0] == y[0]):
                 sg = 1.0 if t[1] == "Add" else -1.0
                 lo = x[2] + (y[2] if sg > 0 else -y[3])
                 hi = x[3] + (y[3] if sg > 0 else -y[2])
                 r = (x[0] if x[0] is not None else y[0], x[1] + sg * y[1], lo, hi)
         elif t[0] == "op" and t[1] == "Mul" and len(t) == 4:
-            x, y = affine_interval(t[2], memo), affine_interval(t[3], memo)
+            x, y = affine_interval(t[2], memo, known), affine_interval(t[3], memo, known)
             if x is not None and y is not None:
                 if x[1] == 0.0 and x[2] == x[3]:
                     r = mulc(y, x[2])
@@ -149,8 +165,12 @@ def affine_interval(t, memo=None):
     return r
 
 
+EVALPT = {}
+
+
 def r2_directions(chk, F):
     rule = "C07.R2"
+    EVALPT.clear()
     eng, D = ctx(F)
     A = EpochAlg(F, eng, D)
     fn = F.find1(self_ty="Epoch", name="to_time_scale", trait="")
@@ -204,13 +224,14 @@ def r2_directions(chk, F):
                                                                       (arg.t[1] == "Add" and _match(norm(arg.t)[2:], norm(("op", "Add", ("c", tt), arg.t[2] if arg.t[3] == ("c", tt) else arg.t[3]))[2:]) and src == "TAI"))
                 chk.ob(rule, inst, "argument-shifted-by-%s32.184s" % ("-" if src == "ET" else "+"), oks, "float term shape (mirrored shift)",
                        detail=None if oks else repr(arg)[:300])
-                # where the correction is evaluated: the epoch's own seconds shifted by -/+32.184 s, give or take the periodic
-                # terms of the refinement loop.  An evaluation point off by d seconds changes the correction by K*M1*d
-                # (3.3e-10 s per second), so 1 s of slack keeps that below 1 ns while leaving room for any iteration scheme.
+                # where the correction is evaluated: the epoch's own seconds plus a bounded offset (the shift and the periodic terms
+                # of the refinement loop).  An evaluation point off by d seconds changes the correction by L*d (3.4e-10 s per
+                # second): how large the offset may be is decided by the error budgets of C07.R3, not here.
                 ai = affine_interval(arg.t) if isinstance(arg, Flt) else None
-                oke = ai is not None and ai[0] is not None and abs(ai[1] - 1.0) < 1e-12 and shift - 1.0 <= ai[2] and ai[3] <= shift + 1.0
-                chk.ob(rule, inst, "correction-evaluated-within-1s-of-own-seconds%+.3f" % shift, oke, "interval evaluation of the float term (|sin| <= 1)",
-                       detail=None if oke else {"affine_interval": ai})
+                oke = ai is not None and ai[0] is not None and abs(ai[1] - 1.0) < 1e-12 and math.isfinite(ai[2]) and math.isfinite(ai[3])
+                chk.ob(rule, inst, "correction-evaluated-at-own-seconds+bounded-offset", oke, "interval evaluation of the float term (|sin| <= 1)",
+                       detail={"offset": [ai[2], ai[3]]} if oke else {"affine_interval": ai})
+                EVALPT.setdefault((src, dst), []).append(ai if oke else None)
                 exp = T0 - L + J if src == "ET" else T0 + L - J
             else:
                 okc = len(corr) >= 1 and len(muls) == 1 and muls[0][0][1] is corr[-1][1]
@@ -226,6 +247,15 @@ def r2_directions(chk, F):
                 else:
                     oks = isinstance(arg, Flt) and arg.t[0] == "op" and arg.t[1] == "Add" and ("c", tt) in (arg.t[2], arg.t[3])
                     chk.ob(rule, inst, "argument-shifted-by-+32.184s", oks, "float term shape", detail=None if oks else repr(arg)[:300])
+                known = {}
+                if "inner_g" in SHAPES:
+                    from .. import fperr
+                    g = fperr.analyse_iv(SHAPES["inner_g"][0], {SHAPES["inner_g"][1]: (-X_MAX, X_MAX)})
+                    for _a, _r in corr:
+                        if isinstance(_r, Flt) and _r.t[0] == "sym":
+                            known[_r.t[1]] = (-float(g.cmag), float(g.cmag))
+                ai = affine_interval(arg.t, None, known) if isinstance(arg, Flt) else None
+                EVALPT.setdefault((src, dst), []).append(ai if ai is not None and ai[0] is not None and abs(ai[1] - 1.0) < 1e-12 else None)
                 exp = T0 - L + J if src == "TDB" else T0 + L - J
             st2 = st.clone()
             D.close(st2, [TR, exp])
@@ -238,11 +268,76 @@ def r2_directions(chk, F):
     # both ET and TDB count from J2000 = prime_epoch_offset (C05.R3 checks its value)
 
 
+def r3_budget(chk, F):
+    """C07.R3: the three numeric clauses as a static error budget.  Inputs, all derived from the code by the rules above: the
+    closed-form trees (R2 shapes) -> Lipschitz constant L, float evaluation error eps and amplitude A by interval / rounding-error
+    analysis (hv.fperr.analyse_iv; sin assumed accurate to 2^-50 absolutely); the offset [lo, hi] between the point where each
+    direction evaluates the correction and the epoch's own seconds (R2 directions, interval evaluation of the refinement loop);
+    the rounding of to_seconds (C18.R6: <= 8u|x|) and the truncation of seconds -> Duration (C18.R1/R2: trunc(fl(q*1e9)))."""
+    from fractions import Fraction as Q
+    from .. import fperr
+    rule = "C07.R3"
+    u = fperr.U
+    tt = Q(32184, 1000)
+    NS = Q(1, 10 ** 9)
+    TS = 8 * u * X_MAX                      # own seconds as a double
+    TR = NS + u * 33                        # seconds -> whole nanoseconds, truncated (value about 32.2 s)
+    fam = {"ET": "delta_et_tai", "TDB": "inner_g"}
+    n = 0
+    for X, which in fam.items():
+        if which not in SHAPES:
+            chk.ob(rule, "Epoch::%s" % which, "closed-form-tree-available", False, "R2 shape rule failed: no tree to analyse")
+            continue
+        tree, leaf = SHAPES[which]
+        try:
+            iv = fperr.analyse_iv(tree, {leaf: (-X_MAX, X_MAX)})
+        except fperr.NotAnalysable as e:
+            chk.ob(rule, "Epoch::%s" % which, "closed-form-tree-analysable", False, "rounding-error analysis", detail=str(e)[:300])
+            continue
+        L, eps = iv.lip, iv.err
+        A = max(abs(iv.hi - tt), abs(iv.lo - tt)) if X == "ET" else iv.mag   # |correction - 32.184 s|
+        offs = {}
+        for cell in ((X, "TAI"), ("TAI", X)):
+            pts = EVALPT.get(cell) or [None]
+            if any(p is None for p in pts):
+                chk.ob(rule, "Epoch::to_time_scale[%s->%s]" % cell, "evaluation-point=own-seconds+[lo,hi]", False,
+                       "interval evaluation of the float term", detail="the argument of the correction is not (own seconds) + a bounded offset on some path")
+                continue
+            offs[cell] = (Q(min(p[2] for p in pts)) - TS, Q(max(p[3] for p in pts)) + TS)
+        for cell, (lo, hi) in offs.items():
+            inst = "Epoch::to_time_scale[%s->%s]" % cell
+            # (a) accuracy against the statement's closed form, t read either as the epoch's own seconds or as the other scale's
+            sg = 1 if cell[0] == X else -1      # other seconds = own -/+ (32.184 + a), |a| <= A
+            d1 = max(abs(lo), abs(hi))
+            d2 = max(abs(lo + sg * tt - A), abs(hi + sg * tt + A))
+            acc = L * max(d1, d2) + eps + TR
+            ok = acc <= 30 * NS
+            chk.ob(rule, inst, "|applied-correction - closed-form(t)| <= 30ns", ok, "error budget: L*|evaluation point - t| + eps + truncation",
+                   detail={"bound_ns": round(float(acc / NS), 3), "L": float(L), "offset": [float(lo), float(hi)], "eps": float(eps)})
+            # (c) order of instants more than 100 ns apart
+            gap = 100 * NS
+            margin = gap - (L * (gap + (hi - lo)) + 2 * eps + TR)
+            chk.ob(rule, inst, "order-preserved-beyond-100ns", margin > 0, "error budget: gap - L*(gap + offset spread) - 2 eps - truncation > 0",
+                   detail={"margin_ns": round(float(margin / NS), 3)})
+            n += 1
+        if len(offs) == 2:
+            # (b) uniform -> X -> uniform
+            (lo2, hi2), (lo1, hi1) = offs[(X, "TAI")], offs[("TAI", X)]
+            dr = max(abs(lo1 - hi2 - tt - A), abs(hi1 - lo2 - tt + A + TR))
+            rt = L * dr + 2 * eps + TR
+            ok = rt <= 20 * NS
+            chk.ob(rule, "Epoch::to_time_scale[TAI->%s->TAI]" % X, "round-trip <= 20ns", ok,
+                   "error budget: L*|forward point - backward point| + 2 eps + truncation", detail={"bound_ns": round(float(rt / NS), 3)})
+    chk.floor(rule, "direction cells with an error budget", n, 4)
+
+
 def run(chk, F, tier):
     r1_constants(chk, F)
     r2_shapes(chk, F)
     r2_directions(chk, F)
+    r3_budget(chk, F)
     eng, D = ctx(F)
     chk.extra["engine_stats"] = dict(eng.stats)
-    chk.assumptions.append("numerical accuracy (30 ns / 20 ns / 100 ns clauses) is NOT decided: accumulated floating-point error of the iteration")
-    chk.assumptions.append("what the five-round iteration that prepares the argument converges to is not examined")
+    chk.assumptions.append("IEEE-754 binary64 round-to-nearest arithmetic; the platform's sin() is accurate to 2^-50 (absolute) on |x| <= 1e5")
+    chk.assumptions.append("what the refinement iteration converges to is not examined: only how far it can move the evaluation point (interval bound)")
+    chk.assumptions.append("Duration arithmetic exact (C01/C04), to_seconds within 8u (C18.R6), Unit::Second x f64 = trunc(fl(q*1e9)) (C18.R1/R2)")
